@@ -1535,6 +1535,18 @@ def variants(tier: str) -> List[Dict[str, Any]]:
     if not quick:
         add("uc7_config_tap003", scenarios.shipped("uc7_config_tap003.yaml"), 1, 128)
         add("uc7_multiple_attack_variants(episode schedule)", str(scenarios.PKG / "uc7_multiple_attack_variants"), 4, 60, constant=False)
+    # a router observed through an explicit port list of another length than num_ports (padded / truncated to num_ports slots),
+    # seen while it is ON, shutting down, OFF and booting
+    for flat in (False, True):
+        for listed, nports in (([1, 2], 4), ([1, 2, 3], 2)):
+            c = dm()
+            nodes_opts = _proxy(c)["observation_space"]["options"]["components"][0]["options"]
+            nodes_opts["routers"] = [{"hostname": "router_1", "ports": [{"port_id": k} for k in listed]}]
+            nodes_opts["num_ports"] = nports
+            _proxy(c)["agent_settings"]["flatten_obs"] = flat
+            ex = _add_actions(c, [("node-shutdown", dict(node_name="router_1")), ("node-startup", dict(node_name="router_1"))])
+            add(f"data_manipulation(router ports {listed} with num_ports {nports}, router power-cycled, flatten={flat})", c, 1, 14, ex,
+                p_extra=0.0, script=(None, 0, None, None, None, None, 1, None, None, None, None, None))
     return V
 
 
